@@ -5984,6 +5984,9 @@ impl BytecodeVM {
                 {
                     match &value {
                         JsValue::Object(proto) => {
+                            if crate::value::prototype_would_cycle(obj_ref, proto) {
+                                return Err(JsError::type_error("Cyclic __proto__ value"));
+                            }
                             obj_ref.borrow_mut().prototype = Some(proto.clone());
                         }
                         JsValue::Null => {
